@@ -157,6 +157,8 @@ def regress(ids):
                     sys.stdout.flush()
                     if not ok:
                         bad.append("%s/%s" % (sid, prop))
+                        for ln in [ln for ln in out.splitlines() if "HARNESS-ERROR" in ln][:2]:
+                            print("        " + ln[:400])
             finally:
                 sh("git checkout -- .", cwd=wt)
     finally:
